@@ -6,12 +6,15 @@
 //!   `FilesystemWalStore`, with the segment/ledger/manifest bytes snapshotted after every commit.
 //! * [`frame`] — independent parser of the documented disk framing (magic, kind, length, payload,
 //!   digest) used to locate record boundaries.
+//! * [`mseg`] — multi-segment store workloads (segment rotation and new-writer segments) with an
+//!   event-ordered timeline of durable mutations for crash-image enumeration.
 //! * [`host`] — host-layer fixtures: a `TrustedRuntimeHost` with a contract package, the op
 //!   alphabet {submit A, submit B, retry A, tick}, and the application-visible fingerprint.
 
 pub mod frame;
 pub mod host;
 pub mod hostrun;
+pub mod mseg;
 pub mod store;
 pub mod syncspy;
 
